@@ -28,6 +28,16 @@ theorem escape_injective {a b : Bytes} (h : escape a = escape b) : a = b := by
   rw [unescape_escape, unescape_escape] at this
   exact Option.some.inj this
 
+/-- a written token contains no raw control byte: strings with newlines, NULs … cannot break
+the document's line/record structure -/
+theorem token_has_no_raw_control (bs : Bytes) : ∀ b ∈ escape bs, (32 : UInt8) ≤ b := by
+  intro b hb
+  simp only [escape, List.mem_cons, List.mem_append, List.not_mem_nil, or_false] at hb
+  rcases hb with rfl | hb | rfl
+  · decide
+  · exact escapeBody_clean bs b hb
+  · decide
+
 /-- FULL STATEMENT WANTED BY THE PROPERTY (does not hold for the code as it is):
 `∀ bs, cLoad (escape bs) = some bs`.
 cereal's `loadValue(std::string&)` assigns `GetString()` (a `const char*`), so what the
